@@ -10,7 +10,9 @@
 //   pool scs sc=<id> st=IDLE|CONNECTING|READY|TF|SHUTDOWN
 //   pool factory fail=<n>                    the next n NewSubConn calls fail
 //   pool pickpre call=<id> ...               a pick (same arguments as pick) whose context has ended before Pick is called
-//   pool pick2 a=<id> b=<id> picker=<n>      two plain picks run concurrently while the harness stalls gb.mu
+//   pool pick2 a=<id> b=<id> picker=<n> [picker2=<n> m=bound req=<key>/ req2=<key>/]
+//                                            two picks (plain, or BOUND with the given keys; the second one on picker2 if
+//                                            given) run concurrently while the harness stalls gb.mu
 //   pool doneswap call=<id> reply=<key>/ sc=<id>   a BIND call completes successfully and is stopped right before it takes
 //                                            the balancer lock to record its keys; the replacement connection <sc> is
 //                                            reported READY (the swap) meanwhile; then the completion continues
@@ -424,6 +426,15 @@ func splitList(s string) []string {
 }
 
 // "<key>/<k1,k2>" -> message; "bad:nil|nilptr|wrong" -> malformed request values
+// requests and replies are different message types whose key fields sit at different positions: whatever the
+// library remembers about one type must not be applied to the other
+type vReqMsg struct {
+	Pad  int
+	Keys []string
+	Aux  string
+	Key  string
+}
+
 func mkReq(shape string) interface{} {
 	switch shape {
 	case "bad:nil":
@@ -435,9 +446,9 @@ func mkReq(shape string) interface{} {
 	}
 	i := strings.IndexByte(shape, '/')
 	if i < 0 {
-		return &vMsg{Key: shape}
+		return &vReqMsg{Key: shape, Aux: "not-the-key"}
 	}
-	return &vMsg{Key: shape[:i], Keys: splitList(shape[i+1:])}
+	return &vReqMsg{Key: shape[:i], Keys: splitList(shape[i+1:]), Aux: "not-the-key"}
 }
 
 // guarded runs f with recover and a watchdog.
@@ -796,16 +807,31 @@ func (h *vPool) doPick2(a map[string]string) string {
 	ida, _ := strconv.Atoi(a["a"])
 	idb, _ := strconv.Atoi(a["b"])
 	pn, _ := strconv.Atoi(a["picker"])
-	if pn < 0 || pn >= len(h.cc.pubs) {
+	pn2 := pn
+	if a["picker2"] != "" {
+		pn2, _ = strconv.Atoi(a["picker2"])
+	}
+	if pn < 0 || pn >= len(h.cc.pubs) || pn2 < 0 || pn2 >= len(h.cc.pubs) {
 		return "bad-op"
 	}
-	if _, dup := h.calls[ida]; dup || ida == idb || h.pickerBusy(pn) {
+	if _, dup := h.calls[ida]; dup || ida == idb || h.pickerBusy(pn) || h.pickerBusy(pn2) {
 		return "bad-op"
 	}
 	if _, dup := h.calls[idb]; dup {
 		return "bad-op"
 	}
-	p := h.cc.pubs[pn].picker
+	method := "plain"
+	if a["m"] != "" {
+		method = a["m"]
+	}
+	reqs := []string{"/", "/"}
+	if a["req"] != "" {
+		reqs[0] = a["req"]
+	}
+	if a["req2"] != "" {
+		reqs[1] = a["req2"]
+	}
+	ps := []balancer.Picker{h.cc.pubs[pn].picker, h.cc.pubs[pn2].picker}
 	mk := func(id int) *vCall {
 		c := &vCall{id: id, result: make(chan string, 1), reply: &vMsg{}}
 		c.ctx = &vCtx{Context: context.Background(), doneCh: make(chan struct{}), entered: make(chan struct{}, 1)}
@@ -813,16 +839,16 @@ func (h *vPool) doPick2(a map[string]string) string {
 	}
 	cs := []*vCall{mk(ida), mk(idb)}
 	h.gb.mu.Lock()
-	for _, c := range cs {
-		c := c
+	for i, c := range cs {
+		i, c := i, c
 		go func() {
 			defer func() {
 				if r := recover(); r != nil {
 					c.result <- "PANIC"
 				}
 			}()
-			ctx := context.WithValue(context.Context(c.ctx), gcpKey, &gcpContext{reqMsg: mkReq("/"), replyMsg: c.reply})
-			r, err := p.Pick(balancer.PickInfo{FullMethodName: "plain", Ctx: ctx})
+			ctx := context.WithValue(context.Context(c.ctx), gcpKey, &gcpContext{reqMsg: mkReq(reqs[i]), replyMsg: c.reply})
+			r, err := ps[i].Pick(balancer.PickInfo{FullMethodName: method, Ctx: ctx})
 			switch {
 			case err == nil:
 				c.done = r.Done
@@ -1908,6 +1934,18 @@ func (g *vGen) next(i int) string {
 			}
 			g.nextCall += 2
 			line = fmt.Sprintf("pool pick2 a=%d b=%d picker=%d", g.nextCall-1, g.nextCall, pn)
+			if g.profile == "fallback" || g.profile == "affinity" || r.Intn(4) == 0 {
+				// two keyed calls at once, possibly through two different pickers (each picker has its own mutex)
+				// (only keys that are bound: a call without a bound key goes through the least-loaded scan, which is
+				// atomic per picker only — two pickers may interleave there, by design)
+				pn2 := r.Intn(len(h.cc.pubs))
+				k1, k2 := g.boundKey(), g.boundKey()
+				_, b1 := h.gb.affinityMap[k1]
+				_, b2 := h.gb.affinityMap[k2]
+				if !h.pickerBusy(pn2) && k1 != "" && k2 != "" && b1 && b2 {
+					line += fmt.Sprintf(" picker2=%d m=bound req=%s/ req2=%s/", pn2, k1, k2)
+				}
+			}
 		case w < 38:
 			line = g.pickLine()
 		case w < 62:
@@ -1987,8 +2025,12 @@ func TestVerifPool(t *testing.T) {
 				if i := strings.Index(line, " =>"); i >= 0 {
 					line = line[:i]
 				}
+				// the operation is on disk before it runs: if the process dies in it (a Go runtime fatal error cannot
+				// be recovered), the trace ends with the operation that killed it
+				w.WriteString(line)
+				w.Flush()
 				obs := h.exec(line)
-				fmt.Fprintf(w, "%s => %s\n", line, obs)
+				fmt.Fprintf(w, " => %s\n", obs)
 				vExitOnHang(w, obs)
 			}
 		}
@@ -2006,8 +2048,10 @@ func TestVerifPool(t *testing.T) {
 		n := nops/2 + g.rng.Intn(nops)
 		for i := 0; i < n && !h.dead; i++ {
 			line := g.next(i)
+			w.WriteString(line)
+			w.Flush()
 			obs := h.exec(line)
-			fmt.Fprintf(w, "%s => %s\n", line, obs)
+			fmt.Fprintf(w, " => %s\n", obs)
 			vExitOnHang(w, obs)
 		}
 	}
